@@ -151,8 +151,19 @@ func buildEvidence(prop, tier string, seed int64, outs []*harnessOutcome, reg *r
 
 func round3(f float64) float64 { return float64(int64(f*1000+0.5)) / 1000 }
 
+// outDir is where run-time output (evidence, replays) goes: /verif, unless
+// VERIF_OUT names another directory (used when a check is pointed at a scratch
+// copy of the repository for mutation runs, so the committed evidence of the
+// real tree is not overwritten).
+func outDir(vdir string) string {
+	if d := os.Getenv("VERIF_OUT"); d != "" {
+		return d
+	}
+	return vdir
+}
+
 func writeEvidence(vdir, prop string, ev *evidence) error {
-	dir := filepath.Join(vdir, "evidence")
+	dir := filepath.Join(outDir(vdir), "evidence")
 	if err := os.MkdirAll(dir, 0o755); err != nil {
 		return err
 	}
